@@ -1235,7 +1235,16 @@ class Fetcher:
                     continue
                 res_or_error = self._records[tp]
                 if type(res_or_error) is FetchResult:
-                    records = res_or_error.getall(max_records)
+                    try:
+                        records = res_or_error.getall(max_records)
+                    except Exception:
+                        # A corrupt batch or a failing deserializer. Positions
+                        # of the partitions drained so far are already moved,
+                        # so their records must be handed out: the error will
+                        # be raised again on next call.
+                        if drained:
+                            return drained
+                        raise
                     if not res_or_error.has_more():
                         # We processed all messages - request new ones
                         del self._records[tp]
